@@ -78,7 +78,33 @@ def check_entry(entry, resp, cs, doc):
     return out
 
 
+def refusals_job(j):
+    """sequences of refused introspection requests of different layouts on a schema that refuses introspection: each answer names
+    ITS field (response key, position in ITS text), whatever was refused before - on the same engine and on another engine of the process"""
+    import itertools
+    import introworld
+    from base import main_loop
+    viol, n = [], 0
+    engines = [introworld.cook(), introworld.cook()]
+    for seq in itertools.permutations(range(len(introworld.REFUSED)), 3):
+        for step, k in enumerate(seq):
+            text, key, token = introworld.REFUSED[k]
+            for spelling in (text, text.encode()):
+                n += 1
+                eng = engines[(step + (0 if isinstance(spelling, str) else 1)) % 2]
+                try:
+                    resp = main_loop().run(eng.execute(spelling))
+                except BaseException as e:
+                    resp = {"__raised__": repr(e)}
+                for m in introworld.check_refusal(text, key, token, resp):
+                    genrun.add_viol(viol, ({"kind": "cache-mismatch", "cls": "refused-introspection", "first": m[:120]},
+                                           {"sequence": [introworld.REFUSED[x][0] for x in seq[:step + 1]], "response": repr(resp)[:1500]}))
+    return {"job": j, "tlc": [], "evaluations": n, "distinct": [], "samples": [], "violations": viol, "extra": {"refused_introspection_requests_in_sequences": n}}
+
+
 def job(j):
+    if j.get("kind") == "refusals":
+        return refusals_job(j)
     cfg = j["cfg"]
     st = {"world": None, "docs": None, "texts": None, "n": 0, "viol": [], "distinct": set(), "samples": [],
           "engines": None, "hits": 0, "evictions": 0, "baseline": {}, "fresh": None, "hit_agree": 0, "hit_total": 0}
@@ -153,7 +179,7 @@ def main(argv):
     cfgs = ["MC_cache_%s.cfg" % n for n in names] + ["MC_hist_%s.cfg" % n for n in ("off", "k1", "inf")]
     if common.tier() == "thorough":
         cfgs += ["MC_cache_%s_big.cfg" % n for n in names]
-    results = genrun.run_jobs("checks.c16", "job", [{"cfg": c} for c in cfgs])
+    results = genrun.run_jobs("checks.c16", "job", [{"cfg": c} for c in cfgs] + [{"kind": "refusals"}])
     bad = genrun.merge(rep, results)
     rc = rep.finish()
     if bad:
